@@ -13,6 +13,7 @@
 From Coq Require Import String Ascii ZArith List Bool.
 From GT Require Import Base.GEnumStr.
 From GT Require Import Base.GEnumSort.
+From GT Require Import Base.GEnumSortFacts.
 From GT Require Import GEnumModel GEnumProofs.
 Import ListNotations.
 Local Open Scope string_scope.
@@ -165,3 +166,32 @@ Lemma own_name_orig :
   /\ is_builderr (gen_orig GEnumProofs.on_clash GEnumProofs.on_opts) = true
   /\ is_generr (gen GEnumProofs.on_clash GEnumProofs.on_opts) = true.
 Proof. vm_compute. repeat split. Qed.
+
+(* ---- a constant named like an identifier the template binds (fix C04-reserved-identifiers, 9cb41dd):
+   `e E = iota; f` generated `func (e E) String() string { switch e { case e: return "e" …` — the receiver
+   shadows the constant, f.String() = "e".  The generator before the fix accepted the definition (the
+   emitted code is then NOT described by sem_string: the model has no notion of shadowing); now it refuses *)
+Definition w_reserved : defn :=
+  {| d_ty := {| ty_name := "E"; ty_signed := true; ty_bits := 64 |};
+     d_consts := [ {| c_name := "e"; c_val := 0; c_dep := false; c_cells := [] |};
+                   {| c_name := "f"; c_val := 1; c_dep := false; c_cells := [] |} ];
+     d_types := [] |}.
+Definition w_reserved_ci : defn :=
+  {| d_ty := {| ty_name := "E"; ty_signed := true; ty_bits := 64 |};
+     d_consts := [ {| c_name := "ok"; c_val := 0; c_dep := false; c_cells := [] |};
+                   {| c_name := "f"; c_val := 1; c_dep := false; c_cells := [] |} ];
+     d_types := [] |}.
+Definition opts_ci (ci : bool) : opts :=
+  {| o_json := true; o_yaml := true; o_text := true; o_ci := ci; o_notraits := false; o_parsable := [] |}.
+Lemma reserved_orig :
+  is_built (gen_orig w_reserved (opts_ci false)) = true /\ is_generr (gen w_reserved (opts_ci false)) = true
+  /\ is_built (gen w_reserved_ci (opts_ci false)) = true /\ is_generr (gen w_reserved_ci (opts_ci true)) = true.
+Proof. vm_compute. repeat split. Qed.
+Lemma reserved_rejected : forall d o, existsb (fun c => reserved_name o (c_name c)) (d_consts d) = true -> gen d o = GenErr.
+Proof.
+  intros d o H. unfold gen.
+  assert (Hr : existsb (fun v => reserved_name o (g_name v)) (sort_values (d_consts d)) = true).
+  { apply existsb_exists in H. destruct H as [c [Hc Hn]]. apply existsb_exists. exists (to_gvalue c). split; [|exact Hn].
+    unfold sort_values. apply (GEnumSortFacts.isort_in g_less). apply in_map. exact Hc. }
+  destruct (sort_values (d_consts d)) as [|f r]; [discriminate|]. rewrite Hr. reflexivity.
+Qed.
